@@ -126,4 +126,12 @@ theorem allow_mem_of_removed (own : String) (fns : List Fn) (l : List String)
   · exact hm
   · exact absurd (mem_applyFns_of_no_allow own fns l own hm h) h'
 
+/-- Every fn of the model is one of the framework's own finalizer edits: nothing of a rejected
+patch survives the filter of `process_resource_event`. -/
+theorem carry_nil (fns : List Fn) : carry fns = [] := by
+  unfold carry
+  rw [List.filter_eq_nil_iff]
+  intro f _
+  cases f <;> decide
+
 end Kopf.C06
